@@ -171,6 +171,14 @@ class SparkSQLModel(data_algebra.db_model.DBModel):
             sql_formatters=SparkSQL_formatters,
         )
 
+    def quote_string(self, string: str) -> str:
+        """
+        Quote a string value (this dialect reads backslash as an escape character).
+        """
+        return data_algebra.sql_model.quote_string_with_backslash_escapes(
+            self.string_quote, string
+        )
+
     # noinspection PyMethodMayBeStatic
     def execute(self, conn, q):
         """
